@@ -274,3 +274,62 @@ func init() {
 		return SV{V: TV{SSeqI, app("g_utf16le", e.term(args[0]))}, T: types.NewSlice(types.Typ[types.Uint8])}
 	}
 }
+
+// golang.org/x/text UTF-16 reader (property C17, decode direction): what io.ReadAll obtains from
+// transform.NewReader(r, UTF16(LE).NewDecoder()) is an uninterpreted function utf16dec of what r held.
+func init() {
+	ext("golang.org/x/text/transform.NewReader", "transform.NewReader(r, t): a non-nil reader that yields what t makes of r's bytes",
+		func(x *Exec, st *State, fr *Frame, cc *ssa.CallCommon, args []Val, instr ssa.Instruction) []Outcome {
+			p, ok := x.symVal(st, "xtr", cc.Signature().Results().At(0).Type()).(PtrV)
+			if !ok {
+				return one(st, x.symResult(st, cc))
+			}
+			st.assume(tNot(tEq(p.Ref, "0")))
+			st.ghost["xtr:"+p.Ref] = args[0]
+			return one(st, p)
+		})
+	prev := externs["io.ReadAll"]
+	ext("io.ReadAll", "io.ReadAll(r): everything r yields until EOF; on a transform.Reader with the UTF-16 little-endian decoder: utf16dec of everything the underlying in-memory reader held (the decoder replaces malformed input, it does not fail)",
+		func(x *Exec, st *State, fr *Frame, cc *ssa.CallCommon, args []Val, instr ssa.Instruction) []Outcome {
+			var p PtrV
+			switch u := args[0].(type) {
+			case PtrV:
+				p = u
+			case IfaceV:
+				if q, ok := u.Payload.(PtrV); ok {
+					p = q
+				}
+			}
+			if p.Ref != "" {
+				if under, ok := st.ghost["xtr:"+p.Ref]; ok {
+					if rd := x.readerOf(st, under); rd != nil {
+						x.w.Decl("(declare-fun g_utf16dec (" + SSeqI + ") " + SSeqI + ")")
+						dec := app("g_utf16dec", rd.get(st))
+						st.assume(app("g_isbytes", dec))
+						st.assume(tAnd(tCmp("<=", "0", sLen(SSeqI, dec)), tCmp("<=", sLen(SSeqI, dec), maxLenLit)))
+						rd.set(st, sEmpty(SSeqI))
+						return one(st, TupleV{TV{SSeqI, dec}, nilErr()})
+					}
+				}
+			}
+			return prev(x, st, fr, cc, args, instr)
+		})
+	ext("bytes.Trim", "bytes.Trim(b, cutset): an uninterpreted function trim(b, cutset), no longer than b",
+		func(x *Exec, st *State, fr *Frame, cc *ssa.CallCommon, args []Val, instr ssa.Instruction) []Outcome {
+			_, b := x.seqOf(st, args[0], cc.Args[0].Type())
+			_, c := x.seqOf(st, args[1], cc.Args[1].Type())
+			x.w.Decl("(declare-fun g_trim (" + SSeqI + " " + SSeqI + ") " + SSeqI + ")")
+			r := app("g_trim", b, c)
+			st.assume(app("g_isbytes", r))
+			st.assume(tAnd(tCmp("<=", "0", sLen(SSeqI, r)), tCmp("<=", sLen(SSeqI, r), sLen(SSeqI, b))))
+			return one(st, TV{SSeqI, r})
+		})
+	specFuncs["utf16dec"] = func(e *specEnv, args []SV) SV {
+		e.x.w.Decl("(declare-fun g_utf16dec (" + SSeqI + ") " + SSeqI + ")")
+		return SV{V: TV{SSeqI, app("g_utf16dec", e.term(args[0]))}, T: types.NewSlice(types.Typ[types.Uint8])}
+	}
+	specFuncs["trim"] = func(e *specEnv, args []SV) SV {
+		e.x.w.Decl("(declare-fun g_trim (" + SSeqI + " " + SSeqI + ") " + SSeqI + ")")
+		return SV{V: TV{SSeqI, app("g_trim", e.term(args[0]), e.term(args[1]))}, T: types.NewSlice(types.Typ[types.Uint8])}
+	}
+}
